@@ -193,8 +193,12 @@ Section Dream.
 
   (* setState(callback overload, a std::function over a pointer to one chain): the callback rewrites every chain
      in place; init_values := false *)
-  Definition set_state_fn (f : list R -> list R) (st : dstate) : dstate :=
-    mkds (map f (chains st)) (pdfv st) false (hist st) (pdfh st) (acc st).
+  Fixpoint mapi (f : nat -> list R -> list R) (i : nat) (cs : list (list R)) : list (list R) :=
+    match cs with [] => [] | c :: r => f i c :: mapi f (S i) r end.
+  (* f i old: what the i-th invocation of the callback leaves in the i-th chain (the callback may be stateful and may
+     read the old chain) *)
+  Definition set_state_fn (f : nat -> list R -> list R) (st : dstate) : dstate :=
+    mkds (mapi f 0 (chains st)) (pdfv st) false (hist st) (pdfh st) (acc st).
 
   (* setPDFvalues(const std::vector<double>&): size check, the USER asserts the cached values *)
   Definition set_pdf_values (vs : list R) (st : dstate) : dstate :=
@@ -214,7 +218,7 @@ Section Dream.
   Inductive op :=
   | OpRun (nb nc : Z)
   | OpSetState (cs : list (list R))
-  | OpSetStateFn (f : list R -> list R)
+  | OpSetStateFn (f : nat -> list R -> list R)
   | OpSetPdf (vs : list R)
   | OpSetPdfFn
   | OpClearPdf
